@@ -74,18 +74,18 @@ def run(env):
     V.import_repo()
     rng = env.rng
     g = progs.ProgGen(rng, elements=progs.SAFE_ELEMENTS + list("nɾ,…W"), with_while=False)
-    gen = [progs.text(g.program(rng.randint(1, 4))) for _ in range(env.budget(1500, 15000))]
+    gen = [progs.text(g.program(rng.randint(1, 4))) for _ in range(env.budget(1500, 6000))]
     seeds = ["3(X)n", "3(x)", "1{X}n", "5λX;†", "3ɾ,", "3(n2=[X])n", "3(n2=[x]n,)", "5λ2<[X]7;†", "1 2 3W(n,)", "(⟨X⟩)", "5λ⟨X⟩;†",
              "3(n[X|x])", "v+X", "λ(X);†", "@f:1|X;5@f;", "3(λX;†)", "₌+X", "3ɾ:,,", "3ƛ›;,", "5λ3(n2=[X]);†", "3(3(X)n,)", "2(3ɾ,)",
              "@f:1|3(X)n;5@f;n", "3(n,)n", "5 'X;", "3µX;", "⟨1|2|X⟩n", "[X|x]n", "3(λ2|X;)n"]
     exhaustive = list(parsecorr.exhaustive(env.budget(3, 4)))
     transcorr.check(env, seeds + gen[: env.budget(400, 3000)])
     gw = progs.ProgGen(rng)
-    static_only = [progs.text(gw.program(rng.randint(1, 4))) for _ in range(env.budget(1500, 15000))]
-    bookscorr.check(env, seeds + gen + static_only + exhaustive, run_timeout=env.budget(3, 6), run_only=seeds + gen[: env.budget(700, 6000)])
+    static_only = [progs.text(gw.program(rng.randint(1, 4))) for _ in range(env.budget(1500, 12000))]
+    bookscorr.check(env, seeds + gen + static_only + exhaustive, run_timeout=env.budget(3, 4), run_only=seeds + gen[: env.budget(700, 3000)])
     # oracle
     items = [(s, [3, 4]) for s in dict.fromkeys(seeds + gen)]
-    res = V.pmap(run_prefixes, items, timeout=env.budget(5, 10))
+    res = V.pmap(run_prefixes, items, timeout=env.budget(5, 6))
     stats = {"balanced": 0, "error_or_exit": 0, "timeout": 0, "ill_formed": 0, "prefixes": 0}
     nontrivial = []
     for (s, _), (st, r) in zip(items, res):
